@@ -383,7 +383,7 @@ func main() {
 	if *verbose || violations > 0 {
 		for _, ob := range obls {
 			if *verbose || (ob.Status != "discharged" && ob.Status != "trivial") {
-				fmt.Fprintf(os.Stderr, "%-12s %-8s %5dms %s  [%s] %s\n", ob.Status, ob.Solver, ob.Ms, ob.Name, ob.Pos, ob.Desc)
+				fmt.Fprintf(os.Stderr, "%-12s %-8s %5dms max %5dms %s  [%s] %s\n", ob.Status, ob.Solver, ob.Ms, ob.MaxMs, ob.Name, ob.Pos, ob.Desc)
 			}
 		}
 		for _, l := range eng.abslog {
